@@ -77,6 +77,18 @@ TGlobal ==
     /\ Ev.m = cfg.params
     /\ l' = l + 1 /\ UNCHANGED <<vars, pend>>
 
+\* a direct call of ParseParameters made by the harness: all placeholders of
+\* unspecified type; their number is the highest $n index / the number of ?
+\* markers; with indexes beyond the protocol limit (or mixed styles, E20) only
+\* boundedness is required
+TParseParams ==
+    /\ More /\ Ev.k = "x-parseparams"
+    /\ Ev.allzero
+    /\ IF HasBeyond(Ev.toks) \/ HasMixed(Ev.toks)
+       THEN Ev.n \in 0..65535
+       ELSE Ev.n = CountParams(Ev.toks)
+    /\ l' = l + 1 /\ UNCHANGED <<vars, pend>>
+
 \* a silent server step
 TServer ==
     /\ pend = <<>>
@@ -125,7 +137,7 @@ TFaultedClose ==
     /\ l' = l + 1
     /\ UNCHANGED <<cfg, ssl, mwi, cparams, inq, eof, faulted, stmts, portals, skip, hq, h, pend>>
 
-TNext == TReset \/ TPreamble \/ TGlobal \/ TApi \/ TSend \/ TEof \/ TLate \/ TServer \/ TMatch \/ TIdle
+TNext == TReset \/ TPreamble \/ TGlobal \/ TParseParams \/ TApi \/ TSend \/ TEof \/ TLate \/ TServer \/ TMatch \/ TIdle
          \/ TFault \/ TFaultedCb \/ TFaultedClose
 
 TSpec == TInit /\ [][TNext]_tvars
